@@ -52,14 +52,19 @@ type options struct {
 
 	// temporary cache of parsed splice values for lifetime of call to
 	// Unpack/Pack/Get/...
-	parsed valueCache
+	parsed *valueCache
 
 	activeFields *fieldSet
 
 	ignoreCommas bool
 }
 
-type valueCache map[string]spliceValue
+type valueCache struct {
+	values map[string]spliceValue
+
+	// number of cyclic references detected so far during the call
+	cycles int
+}
 
 // specific API on top of Config to handle adjusting merging behavior per fields
 type fieldHandlingTree Config
@@ -275,7 +280,7 @@ func makeOptions(opts []Option) *options {
 		tag:          "config",
 		validatorTag: "validate",
 		pathSep:      "", // no separator by default
-		parsed:       map[string]spliceValue{},
+		parsed:       &valueCache{values: map[string]spliceValue{}},
 		activeFields: newFieldSet(nil),
 		maxIdx:       defaultMaxIdx,
 	}
@@ -285,22 +290,26 @@ func makeOptions(opts []Option) *options {
 	return &o
 }
 
-func (cache valueCache) cachedValue(
+func (cache *valueCache) cachedValue(
 	id cacheID,
 	f func() (value, error),
 ) (value, error) {
-	if v, ok := cache[string(id)]; ok {
+	if v, ok := cache.values[string(id)]; ok {
 		if v.err != nil {
 			return nil, v.err
 		}
 		return v.value, nil
 	}
 
+	cycles := cache.cycles
 	v, err := f()
 
-	// Only primitives can be cached, allowing us to get out of infinite loop
-	if v != nil && v.canCache() {
-		cache[string(id)] = spliceValue{err, v}
+	// Only primitives can be cached, allowing us to get out of infinite loop.
+	// A value computed while a cyclic reference was detected (and absorbed by a
+	// default value or a resolver) depends on the settings under evaluation at
+	// that moment, so it must not be served to other settings.
+	if v != nil && v.canCache() && cache.cycles == cycles {
+		cache.values[string(id)] = spliceValue{err, v}
 	}
 	return v, err
 }
